@@ -22,7 +22,7 @@ import (
 	"github.com/dolthub/dolt/go/zzverif/vsql"
 )
 
-const c34Rule = "one database per case: 2-3 keyed tables (pk INT, c INT, later ADD COLUMN dN INT) with 1-3 rows, 1-2 commits on main, a branch b1 at one of them (50%: with its own extra commit; 70%: with uncommitted changes), then 8-18 drawn steps (weights depend on the state: more stash pushes while a table has staged and unstaged changes, more pops while a stash exists) on one session: row INSERT/UPDATE/DELETE, CREATE TABLE, DROP TABLE, ADD COLUMN (all values fresh, so logically equal tables are byte-equal tables); dolt_add(t|'.'); dolt_reset(t|no args), ('--hard'[,commit]), ('--soft',commit), (commit); dolt_commit('-m'|'-am'); dolt_stash('push',name[, '--include-untracked']) / pop / drop on two stash names; dolt_checkout(branch), ('--move',branch), (table). Oracle: a three-root model per branch written from the procedures' documentation: add copies working->staged per table; table reset copies HEAD->staged; hard reset sets staged=working=target keeping untracked tables; soft reset moves HEAD only; mixed reset moves HEAD and staged; stash push saves the (tracked [+untracked with -u]) changes and leaves staged=HEAD and the stashed tables of working = HEAD; pop three-way-merges the stash into working (table level, row/cell level through vsql.Merge3 when both sides changed a table) and re-stages tables that were staged as new, failing without any change on a conflict; plain checkout only switches the session; --move carries the uncommitted changes to the target iff no table would be overwritten (else it fails and nothing changes) and leaves the source branch clean. After every version-control call HEAD hash, HEAD/STAGED/WORKING tables+schemas+rows of both branches, active_branch() and dolt_stashes are compared with the model. Non-trivial (DESIGN): the sequence contains a successful stash push over a table that had both staged and unstaged changes and a --move checkout that had to be refused (classes count how many cases also popped that stash, carried changes across branches, hard-reset a doubly dirty working set, ...); distinct by the full step list."
+const c34Rule = "one database per case: 2-3 keyed tables (pk INT, c INT, later ADD COLUMN dN INT) with 1-3 rows, 1-2 commits on main, a branch b1 at one of them (50%: with its own extra commit; 45%: with uncommitted changes), then 8-18 drawn steps (weights depend on the state: more stash pushes while a table has staged and unstaged changes, more pops while a stash exists) on one session: row INSERT/UPDATE/DELETE, CREATE TABLE, DROP TABLE, ADD COLUMN (all values fresh, so logically equal tables are byte-equal tables); dolt_add(t|'.'); dolt_reset(t|no args), ('--hard'[,commit]), ('--soft',commit), (commit); dolt_commit('-m'|'-am'); dolt_stash('push',name[, '--include-untracked']) / pop / drop on two stash names; dolt_checkout(branch), ('--move',branch), (table). Oracle: a three-root model per branch written from the procedures' documentation: add copies working->staged per table; table reset copies HEAD->staged; hard reset sets staged=working=target keeping untracked tables; soft reset moves HEAD only; mixed reset moves HEAD and staged; stash push saves the (tracked [+untracked with -u]) changes and leaves staged=HEAD and the stashed tables of working = HEAD; pop three-way-merges the stash into working (table level, row/cell level through vsql.Merge3 when both sides changed a table) and re-stages tables that were staged as new, failing without any change on a conflict; plain checkout only switches the session; --move carries the uncommitted changes to the target iff no table would be overwritten (else it fails and nothing changes) and leaves the source branch clean. After every version-control call HEAD hash, HEAD/STAGED/WORKING tables+schemas+rows of both branches, active_branch() and dolt_stashes are compared with the model. Non-trivial (DESIGN): the sequence contains a successful stash push over a table that had both staged and unstaged changes and a --move checkout that had to be refused (classes count how many cases also popped that stash, carried changes across branches, hard-reset a doubly dirty working set, ...); distinct by the full step list."
 
 var c34Assumptions = []string{
 	"no dolt_ignore patterns, foreign keys, renames or auto-increment columns are generated (C46 covers ignore patterns); table and branch names never coincide",
@@ -639,7 +639,7 @@ func TestVerif_C34(t *testing.T) {
 	defer srv.Stop()
 	env := &c34Env{srv: srv, admin: srv.Session(t, "admin", "")}
 	known := map[string]int{}
-	vh.Check(t, "model", 240, 800, func(rt *rapid.T) {
+	vh.Check(t, "model", 200, 700, func(rt *rapid.T) {
 		c34Run(rt, env, rec, known)
 	})
 	for id, n := range known {
@@ -712,7 +712,7 @@ func c34Run(rt *rapid.T, env *c34Env, rec *vh.Recorder, known map[string]int) {
 	// half of the cases are steered towards DESIGN's non-trivial shape: b1 dirty from the start, a
 	// stash over a doubly dirty table first, later a --move checkout from a dirty working set
 	steered := rapid.Bool().Draw(rt, "steered")
-	if b1d := rapid.IntRange(0, 9).Draw(rt, "b1_dirty"); b1d < 4 || steered {
+	if b1d := rapid.IntRange(0, 9).Draw(rt, "b1_dirty"); b1d < 2 || (steered && b1d < 7) {
 		// uncommitted changes on b1: a later --move checkout from a dirty main must be refused
 		c.step("CALL dolt_checkout('b1')", false)
 		c.m.cur = "b1"
